@@ -525,8 +525,9 @@ def t_cancel_all(h):
         o = common.mk_order(h, side='buy', type=ty, qty=Fraction(1), price=Fraction(10), symbol='BTC-USDT', exchange='Sandbox',
                             reduce_only=False, status=st, id=f'o{j}')
         orders.append((o, st))
-    reg = Obj(None, {'get_active_orders': Builtin('get_active_orders', lambda i, a, k: [o for o, _ in orders]),
-                     'storage': {'Sandbox-BTC-USDT': [o for o, _ in orders]}})
+    # the real registry class (its selectors run on these lists): storage = every submitted order, active_storage = the active view
+    reg = Obj(h.repo.find('jesse.store.state_orders.OrdersState'), {'storage': {'Sandbox-BTC-USDT': [o for o, _ in orders]},
+                                                                    'active_storage': {'Sandbox-BTC-USDT': [o for o, _ in orders]}, 'to_execute': []})
     store = Obj(None, {'orders': reg})
     h.ctx.cfg.globals['jesse.exchanges.sandbox.Sandbox.store'] = lambda i: store
     ex = Obj(None, {'on_order_cancellation': Builtin('on_order_cancellation', lambda i, a, k: None)})
